@@ -80,10 +80,10 @@ def register_all(reg):
     THRX_NOTE = ("Real threads under a cooperative scheduler (one baton), virtual time; scheduling points at synchronisation operations only (thread start/exit/join, Event, queue put/get, sleep, timers); "
                  "deviation-bounded, not all interleavings; in-process transport only.")
     reg("C21", "thrx", "model_checking", "stateless deviation-bounded systematic scheduling of the real threaded runtime (cooperative scheduler, virtual time) + callback/thread monitor",
-        "Every schedule with <=1 (thorough <=2 on 2-variable instances) deviation from the fair default schedule of the real orchestrated run (DPOP mappings of C22, A-DSA with periodic actions, a run ended by the timeout timer, resilient runs with replication computations), plus the default execution (thorough: and every single deviation) of four other default schedules, is executed; a monitor checks every start / on_message / pause / periodic action / discovery callback for the executing thread and for overlap per agent.",
+        "Every schedule with <=1 (thorough <=2 on 2-variable instances) deviation from the fair default schedule of the real orchestrated run (DPOP mappings of C22, A-DSA with periodic actions, a run ended by the timeout timer, resilient runs with replication computations), plus the default execution (thorough: and every single deviation on the 2-variable instances) of four other default schedules, is executed; a monitor checks every start / on_message / pause / periodic action / discovery callback for the executing thread and for overlap per agent.",
         THRX_NOTE, "DESIGN.md 3 C21")
     reg("C22", "thrx", "model_checking", "stateless deviation-bounded systematic scheduling of the real threaded runtime (cooperative scheduler, virtual time) x instance/distribution enumeration",
-        "For every (small DCOP x agent set x distribution incl. oneagent/adhoc/gh_cgdp outputs) the real run_local_thread_dcop / deploy_computations / run(timeout) sequence is executed under the fair default schedule and every schedule with <=1 deviation (thorough: <=2 on 2-variable instances), plus the default execution (thorough: and every single deviation) of other default schedules (most-recently-run first, by thread name, a slow orchestrator / agent thread); each execution must end OK before the timeout on a complete, brute-force-optimal assignment whose reported cost/violation match the reference accounting.",
+        "For every (small DCOP x agent set x distribution incl. oneagent/adhoc/gh_cgdp outputs) the real run_local_thread_dcop / deploy_computations / run(timeout) sequence is executed under the fair default schedule and every schedule with <=1 deviation (thorough: <=2 on 2-variable instances), plus the default execution (thorough: and every single deviation on the 2-variable instances) of other default schedules (most-recently-run first, by thread name, a slow orchestrator / agent thread); each execution must end OK before the timeout on a complete, brute-force-optimal assignment whose reported cost/violation match the reference accounting.",
         THRX_NOTE, "DESIGN.md 3 C22")
 
     reg("C18", "thrx", "model_checking", "stateless deviation-bounded systematic scheduling of real threads (cooperative scheduler) with line-level scheduling points in the messaging code (sys.settrace)",
